@@ -191,7 +191,7 @@ theorem C17_backup_stores (s : Server) (b : Backup) (p big : Bool) :
         s.backupConfigured = true ∧ s.ftpc = some .running ∧
         (backupDatabase s b p big).2.1.stored = s.file ∧ s.file.isSome) ∧
     ((backupDatabase s b p big).2.2 = false → (backupDatabase s b p big).2.1 = b) := by
-  unfold backupDatabase Server.ftpcAct
+  unfold backupDatabase ftpSendFile Server.ftpcAct
   by_cases hc : s.canAct = true
   · by_cases hb : s.backupConfigured = true
     · cases hft : s.ftpc with
@@ -211,6 +211,26 @@ theorem C17_backup_stores (s : Server) (b : Backup) (p big : Bool) :
     · simp [hc, hb]
   · simp [hc]
 
+set_option linter.unusedSimpArgs false in
+/-- `restore_backup` in closed form: the three guards; then the copy arrives iff the request path is open, the backup host
+serves, its link takes the file, the answer path is open and the FTP client is RUNNING (and the backup host stores a copy);
+then downloads/ and the live file hold that copy and the service is GOOD; otherwise the only traces are the removed
+leftover and the FTP client's connection bookkeeping. -/
+theorem restoreBackup_closed (s : Server) (b : Backup) (pq pr k : Bool) :
+    restoreBackup s b pq pr k =
+      if !s.canAct || !s.backupConfigured || s.ftpc.isNone then (s, false)
+      else match b.stored with
+        | some bh =>
+          if pq && b.serves && k && pr && s.ftpcAct then
+            ({ s with ftpConn := true, downloads := some bh, dlFolder := true, file := some bh, folder := true, health := .good }, true)
+          else ({ s with downloads := none, ftpConn := s.ftpConn || (s.ftpcAct && pq && b.serves) }, false)
+        | none => ({ s with downloads := none, ftpConn := s.ftpConn || (s.ftpcAct && pq && b.serves) }, false) := by
+  unfold restoreBackup ftpRequestFile Server.ftpcAct
+  cases hc : s.canAct <;> cases hbc : s.backupConfigured <;> cases hft : s.ftpc <;> simp [hc, hbc, hft]
+  rename_i f
+  cases pq <;> cases hbs : b.serves <;> cases hs : b.stored <;> cases k <;> cases hq : s.ftpConn <;> cases pr <;> cases f <;>
+    simp [hbs, hs, hq]
+
 /-- A restore reports success ONLY when the file really came over the network in this call: the service can act, a
 backup server is configured, the request path is open, the backup host serves, it stores a copy, its link takes the file,
 the answer path is open and the FTP client on the database host is RUNNING; and then the live database file, and the
@@ -221,7 +241,7 @@ theorem C17_restore_result (s : Server) (b : Backup) (pq pr k : Bool) (hok : (re
       (restoreBackup s b pq pr k).1.downloads = some h ∧
       s.canAct = true ∧ s.backupConfigured = true ∧ pq = true ∧ b.serves = true ∧ k = true ∧ pr = true ∧
       s.ftpcAct = true := by
-  unfold restoreBackup Server.ftpcAct at hok ⊢
+  unfold restoreBackup ftpRequestFile Server.ftpcAct at hok ⊢
   cases hc : s.canAct <;> cases hbc : s.backupConfigured <;> cases hft : s.ftpc <;> simp [hc, hbc, hft] at hok ⊢
   rename_i f
   cases pq <;> cases hbs : b.serves <;> cases hs : b.stored <;> cases k <;> cases hq : s.ftpConn <;>
@@ -247,8 +267,15 @@ theorem C17_restore_ignores_leftovers (s : Server) (b : Backup) (pq pr k : Bool)
     (restoreBackup { s with downloads := d, dlFolder := f } b pq pr k).1.conns = (restoreBackup s b pq pr k).1.conns ∧
     ((restoreBackup s b pq pr k).2 = true →
       (restoreBackup { s with downloads := d, dlFolder := f } b pq pr k).1 = (restoreBackup s b pq pr k).1) := by
-  unfold restoreBackup Server.ftpcAct Server.canAct
-  cases pr <;> cases k <;> dsimp only <;> (repeat' split) <;> simp_all
+  rw [restoreBackup_closed, restoreBackup_closed]
+  have e1 : Server.canAct { s with downloads := d, dlFolder := f } = s.canAct := rfl
+  have e2 : Server.ftpcAct { s with downloads := d, dlFolder := f } = s.ftpcAct := rfl
+  simp only [e1, e2]
+  cases hg : (!s.canAct || !s.backupConfigured || s.ftpc.isNone)
+  · cases hs : b.stored with
+    | none => simp
+    | some bh => cases hx : (pq && b.serves && k && pr && s.ftpcAct) <;> simp
+  · simp
 
 /-- A restore that fails — whatever the reason: service not running, request or answer path closed, backup host off,
 FTP server stopped, FTP client not running, nothing stored, a saturated link — leaves the server as it was, up to the
@@ -261,8 +288,12 @@ theorem C17_failed_restore_changes_nothing (s : Server) (b : Backup) (pq pr k : 
                                              downloads := (restoreBackup s b pq pr k).1.downloads } ∧
     ((restoreBackup s b pq pr k).1.downloads = s.downloads ∨ (restoreBackup s b pq pr k).1.downloads = none) := by
   revert h
-  cases pr <;> cases k <;> unfold restoreBackup <;> dsimp only <;> (repeat' split) <;> intro h <;>
-    first | exact ⟨rfl, Or.inl rfl⟩ | exact ⟨rfl, Or.inr rfl⟩ | (cases s; simp_all) | simp_all
+  rw [restoreBackup_closed]
+  cases hg : (!s.canAct || !s.backupConfigured || s.ftpc.isNone)
+  · cases hs : b.stored with
+    | none => simp
+    | some bh => cases hx : (pq && b.serves && k && pr && s.ftpcAct) <;> simp
+  · simp
 
 /-- End to end: back up while GOOD, then let the server get into ANY state `s'` (damage, leftovers, earlier restores):
 a restore that reports success makes the file GOOD again. -/
@@ -580,13 +611,18 @@ theorem restore_frame (s : Server) (b : Backup) (pq pr k : Bool) :
     (restoreBackup s b pq pr k).1.conns = s.conns ∧ (restoreBackup s b pq pr k).1.nextId = s.nextId ∧
     (restoreBackup s b pq pr k).1.password = s.password ∧ (restoreBackup s b pq pr k).1.node = s.node ∧
     (restoreBackup s b pq pr k).1.op = s.op ∧ (restoreBackup s b pq pr k).1.maxSessions = s.maxSessions := by
-  cases pr <;> cases k <;> unfold restoreBackup <;> dsimp only <;> (repeat' split) <;> first | simp | simp_all
+  rw [restoreBackup_closed]
+  cases hg : (!s.canAct || !s.backupConfigured || s.ftpc.isNone)
+  · cases hs : b.stored with
+    | none => simp
+    | some bh => cases hx : (pq && b.serves && k && pr && s.ftpcAct) <;> simp
+  · simp
 
 theorem backup_frame (s : Server) (b : Backup) (pq big : Bool) :
     (backupDatabase s b pq big).1.conns = s.conns ∧ (backupDatabase s b pq big).1.nextId = s.nextId ∧
     (backupDatabase s b pq big).1.file = s.file ∧ (backupDatabase s b pq big).1.password = s.password ∧
     (backupDatabase s b pq big).1.maxSessions = s.maxSessions := by
-  cases big <;> unfold backupDatabase <;> dsimp only <;> (repeat' split) <;> first | simp | simp_all
+  cases big <;> unfold backupDatabase ftpSendFile <;> dsimp only <;> (repeat' split) <;> first | simp | simp_all
 
 theorem request_frame (s : Server) (r : SvcReq) :
     (s.request r).1.conns = s.conns ∧ (s.request r).1.nextId = s.nextId ∧ (s.request r).1.file = s.file ∧
